@@ -17,7 +17,7 @@ import proxcalc_gen as G
 from common import ModelErr, b2f, b2fs, f2b, fs2b
 
 PROP = "C09"
-CLAIMED = False
+CLAIMED = True
 ENGINE = "ProxCalc"
 DESIGN_REF = "DESIGN.md §5.2"
 TECHNIQUE = (
